@@ -323,7 +323,20 @@ class Inliner:
                 changed |= desugar_tables(node, f.module.top)  # before scalar replacement: the rows may be private records
                 changed |= scalar_replace(node, f.module)
                 changed |= tuple_state_split(node)
-                changed |= unroll_literal_loops(node, f.module.top)
+                cc = {}
+                if f.cls is not None:
+                    for c_ in self.prog.mro(f.cls):
+                        for nm_, mem_ in c_.members.items():
+                            v_ = getattr(mem_.attr, "value", None) if mem_.attr is not None else None
+                            if nm_ not in cc and isinstance(v_, (ast.Tuple, ast.List)) and v_.elts and all(
+                                    isinstance(e_, ast.Constant) or (isinstance(e_, ast.Tuple) and all(isinstance(x_, ast.Constant) for x_ in e_.elts)) for e_ in v_.elts):
+                                cc[nm_] = v_
+                if unroll_literal_loops(node, f.module.top, cc):
+                    changed = True
+                    from .normalize import desugar_attr_builtins as _dab, fold_substituted_tests as _fst
+
+                    _dab(node)
+                    _fst(node, lambda _n: False)
                 changed |= fuse_comprehension_loops(node)
                 if expanded:
                     from .normalize import desugar_attr_builtins
